@@ -4,7 +4,7 @@ ones none; at quiescence the function runs its original code object and no handl
 import itertools
 import sys
 
-sys.path.insert(0, "/repo")
+sys.path.insert(0, __import__("os").environ.get("PVC_REPO", "/repo"))
 from ptera import probing  # noqa: E402
 from ptera.overlay import HandlerCollection  # noqa: E402
 
